@@ -28,6 +28,9 @@ Abs(x) == IF x < 0 THEN 0 - x ELSE x
 Max(a, b) == IF a > b THEN a ELSE b
 
 InLattice(L, M) == L \in (0 - QUARTER)..QUARTER /\ M \in (0 - HALF)..(HALF - 1)
+\* the lattice point one step to the north-east (south-east at the north pole)
+NeighL(L) == IF L < QUARTER THEN L + 1 ELSE L - 1
+NeighM(M) == IF M + 1 >= HALF THEN M + 1 - P ELSE M + 1
 
 (***************************************************************************)
 (* Encoding (A.1.7.3 / A.1.7.4).  For a position x/P zones:                *)
